@@ -2,6 +2,9 @@
 #pragma once
 #include "exec.hpp"
 #include "realops.hpp"
+#ifdef MSIM_SERIALIZATION
+#include "ser_ops.hpp"
+#endif
 
 namespace sim {
 
@@ -15,7 +18,9 @@ template<class Cfg> ModelTraits backend_traits() {
 	(void)e;
 	ModelTraits T;
 	using ET        = elem_traits<typename Cfg::elem>;
-	T.trivial       = !ET::tracked;
+	T.trivial       = ET::trivial;
+	T.serialization = Cfg::serialization;
+		T.tracked       = ET::tracked;
 	T.pocca         = Cfg::pocca;
 	T.pocma         = Cfg::pocma;
 	T.pocs          = Cfg::pocs;
@@ -29,7 +34,7 @@ template<class Cfg> ModelTraits backend_traits() {
 }
 
 // generic configuration over sim::allocator
-template<class Elem, class AC, int DMin, int DMax, bool Static = false>
+template<class Elem, class AC, int DMin, int DMax, bool Static = false, bool Ser = false>
 struct SimCfg {
 	using elem  = Elem;
 	using alloc = sim::allocator<Elem, AC>;
@@ -37,6 +42,7 @@ struct SimCfg {
 	static constexpr bool pocca = AC::pocca, pocma = AC::pocma, pocs = AC::pocs, soccc_default = AC::soccc_default, fancy = AC::fancy;
 	static constexpr int  dmin = DMin, dmax = DMax;
 	static constexpr bool static_arrays = Static;
+	static constexpr bool serialization = Ser;
 	static auto make_alloc(int arena) -> alloc { return alloc{arena}; }
 	static int  arena_of(alloc const& a) { return a.arena; }
 	static void setup() {}
